@@ -388,7 +388,7 @@ def compare(data, progs):
 
 
 def run(rep, tier, seed):
-  seeds = [0, 1, 2] if tier == "quick" else [0, 1, 2, 3, 7]
+  seeds = [0, 1, 2] if tier == "quick" else [0, 1, 2, 3]
   progs = programs(tier)
   data = collect(tier, seeds)
   viol, states, transitions = compare(data, progs)
